@@ -1274,8 +1274,12 @@ func (bc *Blockchain) resetStateInternal(height uint32, stage stateChangeStage) 
 		p = time.Now()
 		fallthrough
 	case transfersReset:
-		// there's nothing to do after that, so just continue with common operations
-		// and remove state reset stage in the end.
+		// State root information is reset in the DB by this stage, but if the process
+		// was interrupted after that it's not yet loaded into the state root module.
+		err = bc.stateRoot.Init(height)
+		if err != nil {
+			return fmt.Errorf("failed to init MPT at height %d: %w", height, err)
+		}
 	default:
 		return fmt.Errorf("unknown state reset stage: %d", stage)
 	}
